@@ -14,6 +14,8 @@ const (
 	handshakeVersion byte = 1
 
 	defaultPoolSize int = 3
+	// the largest pool size a peer may announce
+	maxPoolSize int = 255
 )
 
 var (
